@@ -195,7 +195,8 @@ func buildTx(s *chainsim.Sim, t map[string]interface{}) []byte {
 	default:
 		hx.Fatal("vh-rel: unknown tx kind %q", tx.Str("kind"))
 	}
-	return s.SignTx(msg, chainsim.TxOpts{Signer: s.Keys[keyIdx(s, signer)], Fee: fee, Entropy: e})
+	corrupt, _ := t["corruptSig"].(bool)
+	return s.SignTx(msg, chainsim.TxOpts{Signer: s.Keys[keyIdx(s, signer)], Fee: fee, Entropy: e, CorruptSig: corrupt})
 }
 
 // runNode executes a script on a fresh real node.
